@@ -1065,3 +1065,42 @@ theorem stream_integrity_conn {W : Nat} {chs : List (Nat × List (Nat × Bytes')
   exact ⟨c0, hc0, h1⟩
 
 end XC.C35
+
+namespace XC.C35
+
+theorem reachableS_of_run {i s s' : SysS} (h : ReachableS i s) (as : List ActS) (hr : runS s as = some s') :
+    ReachableS i s' := by
+  induction as generalizing s with
+  | nil => simp [runS] at hr; subst hr; exact h
+  | cons a as ih =>
+    simp only [runS] at hr
+    cases hst : stepS s a with
+    | none => simp [hst] at hr
+    | some s1 => simp [hst] at hr; exact ih (.step a h hst) hr
+
+/-- window 2, one writer with 3 bytes: the sender uses the window, the reader reads and ADVERTISES 2 more bytes
+    without having credited them yet, the compliant sender uses the grant, the data arrives first -/
+def splitInit : SysS := ⟨SysC.init 2 9 [(0, [1, 2, 3])], 0⟩
+def splitRun : List ActS :=
+  [.base (.send 0), .base .deliverData, .readAdvertise 0 2, .base .deliverAdj, .base (.send 0), .base .deliverData]
+
+/-- **adjust_must_be_atomic**: in the LTS where the window adjust goes on the wire BEFORE `myWindow` is credited, a
+    COMPLIANT sender (the model's own `send`, which never exceeds the credit it was granted) drives the receiver into
+    its "remote side wrote too much" branch: `receiver_never_complains` fails.  With the atomic `adjustWindow` of
+    `stepC` the same property is a theorem (`receiver_never_complains_multi`) — so "advertise + credit in one critical
+    section" is a proof obligation of C35, not an implementation detail. -/
+theorem adjust_must_be_atomic :
+    ∃ s, ReachableS splitInit s ∧ s.c.complained = true ∧ s.uncredited = 2 ∧ s.c.used ≤ s.c.granted := by
+  have h : ∃ s, runS splitInit splitRun = some s ∧ s.c.complained = true ∧ s.uncredited = 2 ∧ s.c.used ≤ s.c.granted := by
+    simp [runS, splitRun, splitInit, stepS, SysC.init, stepC, nextPacket, reserve, minPayloadSize, handleData, Rcv.init,
+      readExt, bufRead, adjustWindow, addWin, unparkAll, channelMaxPacket, channelWindowSize]
+  obtain ⟨s, hr, rest⟩ := h
+  exact ⟨s, reachableS_of_run .init _ hr, rest⟩
+
+/-- crediting in time (the `credit` step before the data arrives) avoids it: the same schedule with `credit` inserted -/
+example : ∃ s, runS splitInit [.base (.send 0), .base .deliverData, .readAdvertise 0 2, .credit, .base .deliverAdj,
+    .base (.send 0), .base .deliverData] = some s ∧ s.c.complained = false := by
+  simp [runS, splitInit, stepS, SysC.init, stepC, nextPacket, reserve, minPayloadSize, handleData, Rcv.init,
+    readExt, bufRead, adjustWindow, addWin, unparkAll, channelMaxPacket, channelWindowSize]
+
+end XC.C35
